@@ -319,6 +319,28 @@ def bytes_eq(it, a, b):
     return mk_bool(z3.And(conj)) if conj else True
 
 
+def bytes_strip(it, b, name, args):
+    atoms = bytes_atoms(it, b)
+    if args and args[0] is not None:
+        chars = bytes_atoms(it, args[0])
+        if not all(isinstance(c, int) for c in chars):
+            raise Unsupported("bytes.strip with a symbolic character set")
+    else:
+        chars = [9, 10, 11, 12, 13, 32]
+
+    def hit(x):
+        if isinstance(x, int):
+            return x in chars
+        return it.p.branch(z3.Or([x == c for c in chars]))
+    if name in ("lstrip", "strip"):
+        while atoms and hit(atoms[0]):
+            atoms = atoms[1:]
+    if name in ("rstrip", "strip"):
+        while atoms and hit(atoms[-1]):
+            atoms = atoms[:-1]
+    return SBytes(atoms)
+
+
 def bytes_find(it, hay, needle):
     hs, ns = bytes_atoms(it, hay), bytes_atoms(it, needle)
     return strs.s_find(it.p, SStr(hs), SStr(ns))
@@ -347,6 +369,12 @@ class SByteArray:
 
     def __symex_iter__(self, it):
         return [mk_int(b) if not isinstance(b, int) else b for b in self.atoms]
+
+    def __len__(self):
+        return len(self.atoms)
+
+    def __symex_len__(self, it):
+        return len(self.atoms)
 
     def __repr__(self):
         return f"SByteArray({self.atoms})"
@@ -1156,6 +1184,8 @@ def container_method(it, recv, name, args, kwargs):
 def sym_method(it, recv, name, args, kwargs):
     p = it.p
     if isinstance(recv, SBytes):
+        if name in ("lstrip", "rstrip", "strip"):
+            return bytes_strip(it, recv, name, args)
         if name == "decode":
             return bytes_decode(it, recv, args, kwargs)
         if name == "hex":
@@ -1187,9 +1217,12 @@ def sym_method(it, recv, name, args, kwargs):
         return strs.s_isdigit(p, s)
     if name == "encode":
         return SBytes((), src=s)
+    if name == "replace":
+        count = args[2] if len(args) > 2 else -1
+        return strs.s_replace(p, s, args[0], args[1], count)
     if name == "format":
         return Opaque()
-    if name in ("lower", "upper", "replace", "index", "count", "partition", "rpartition", "rsplit",
+    if name in ("lower", "upper", "index", "count", "partition", "rpartition", "rsplit",
                 "splitlines", "isnumeric", "isdecimal", "isalpha", "title", "zfill"):
         raise Unsupported(f"str.{name} on symbolic text")
     raise prog(AttributeError(f"'str' object has no attribute '{name}'"))
